@@ -65,6 +65,14 @@ func symbols() *sl.Symbols {
 		sl.Op{Name: "upd3(give text)", Kind: "upd", Ids: []int{3}, Docs: []sl.Doc{{prop: "zebra quick"}}},
 		sl.Op{Name: "upd1(_delete)", Kind: "upd", Ids: []int{1}, Docs: []sl.Doc{{prop: "_delete", "n": "_delete"}}},
 		sl.Op{Name: "upd7(add text)", Kind: "upd", Ids: []int{7, 1}, Docs: []sl.Doc{{prop: "quick fox"}, {prop: "brown brown"}}},
+		// rewrites that LOOK unchanged: equal under Unicode case folding, different after the analyser's
+		// lower-casing (long s / s, micro sign / Greek mu, final / non-final sigma written the other way), the
+		// very same text, case only, one letter
+		sl.Op{Name: "ins9(Congreſs 5µm ΟΔΟΣ)", Kind: "ins", Ids: []int{9}, Docs: []sl.Doc{{prop: "Congreſs 5µm ΟΔΟΣ", "n": sl.Doc{"t": "Congreſs 5µm ΟΔΟΣ"}}}},
+		sl.Op{Name: "upd9(fold-equal: CONGRESS 5ΜM οδοσ)", Kind: "upd", Ids: []int{9}, Docs: []sl.Doc{{prop: "CONGRESS 5ΜM οδοσ", "n": sl.Doc{"t": "CONGRESS 5ΜM οδοσ"}}}},
+		sl.Op{Name: "upd9(the same text)", Kind: "upd", Ids: []int{9}, Docs: []sl.Doc{{prop: "Congreſs 5µm ΟΔΟΣ"}}},
+		sl.Op{Name: "upd9(case only)", Kind: "upd", Ids: []int{9}, Docs: []sl.Doc{{prop: "CONGREſS 5µM οδοσ"}}},
+		sl.Op{Name: "upd9(one letter)", Kind: "upd", Ids: []int{9}, Docs: []sl.Doc{{prop: "Congreſs 5µn ΟΔΟΣ"}}},
 		sl.Op{Name: "del1", Kind: "del", Ids: []int{1}},
 		sl.Op{Name: "del2,4", Kind: "del", Ids: []int{2, 4}},
 	)
@@ -74,7 +82,7 @@ func f32(v float32) *float32 { return &v }
 func ptr[T any](v T) *T      { return &v }
 
 func battery(s *sl.ShardSystem) {
-	queries := []string{"quick", "quick fox", "QUICK", "fox fox", "the", "zebra", "quick zebra", "café", "dog lazy jumps", "quick, brown... fox!"}
+	queries := []string{"quick", "quick fox", "QUICK", "fox fox", "the", "zebra", "quick zebra", "café", "dog lazy jumps", "quick, brown... fox!", "congress", "congreſs 5µm", "5μm οδοσ", "οδος 5µn"}
 	filters := []struct {
 		name string
 		q    *models.Query
@@ -133,7 +141,7 @@ func factory(raw json.RawMessage) (seqx.System, error) {
 }
 
 func master(cfg *harness.Config, rep *harness.Report) {
-	rep.Rule = "breadth-first search over histories that insert, rewrite, blank out (stop words / punctuation only), give text to, remove (_delete) and delete text fields (top-level and nested property), from the empty corpus and from a 6-document corpus; after every batch 10 queries (multi-term, repeated terms, stop-word-only, mixed case, unicode, punctuation) x {containsAll, containsAny} x limit {1,2,75} x weight {nil,2,-1} x pre-filter {none, subset, empty}: match set exact, scores = sum tf*log10(N/(df+1)) recomputed from the model after every batch, order, top-limit cut, hybrid = weight*score"
+	rep.Rule = "breadth-first search over histories that insert, rewrite, blank out (stop words / punctuation only), give text to, remove (_delete), rewrite to texts that look unchanged (identical, case only, one letter, equal under Unicode case folding but different after lower-casing) and delete text fields (top-level and nested property), from the empty corpus and from a 6-document corpus; after every batch 14 queries (multi-term, terms that differ only under Unicode case folding, repeated terms, stop-word-only, mixed case, unicode, punctuation) x {containsAll, containsAny} x limit {1,2,75} x weight {nil,2,-1} x pre-filter {none, subset, empty}: match set exact, scores = sum tf*log10(N/(df+1)) recomputed from the model after every batch, order, top-limit cut, hybrid = weight*score"
 	rep.Assumptions = []string{"bleve's standard analyser is trusted (the reference calls the same analyser)", "score tolerance 1e-4 relative (float32 accumulation in map order)"}
 	p := pool.New(pool.Options{CPUsPerWorker: 2, JobTimeout: 60 * time.Second})
 	syms := symbols()
@@ -168,6 +176,11 @@ func master(cfg *harness.Config, rep *harness.Report) {
 	specs = append(specs,
 		seqx.Spec{Name: "bbolt/warm/long", Cfg: cfgT{sl.InstCfg{Backend: "bbolt", CacheSize: -1, Schema: schema(), Proxy: true}}, Alphabet: syms.Refs(long...), Depth: 2, Dedup: true, Starts: [][]any{{}, syms.Refs("ins1..6")}},
 		seqx.Spec{Name: "bbolt/reopen/long", Cfg: cfgT{sl.InstCfg{Backend: "bbolt", CacheSize: 0, ReopenEachOp: true, Schema: schema(), Proxy: true}}, Alphabet: syms.Refs(long...), Depth: 2, Dedup: true, Starts: [][]any{syms.Refs("ins1..6")}})
+	// rewrites that look unchanged (fold-equal, identical, case only, one letter), warm and reopened
+	same := []string{"ins9(Congreſs 5µm ΟΔΟΣ)", "upd9(fold-equal: CONGRESS 5ΜM οδοσ)", "upd9(the same text)", "upd9(case only)", "upd9(one letter)", "ins2(quick dog)"}
+	specs = append(specs,
+		seqx.Spec{Name: "bbolt/warm/looks-unchanged", Cfg: cfgT{sl.InstCfg{Backend: "bbolt", CacheSize: -1, Schema: schema(), Proxy: true}}, Alphabet: syms.Refs(same...), Depth: 3, Dedup: true, Starts: [][]any{{}, syms.Refs("ins1..6")}},
+		seqx.Spec{Name: "bbolt/reopen/looks-unchanged", Cfg: cfgT{sl.InstCfg{Backend: "bbolt", CacheSize: 0, ReopenEachOp: true, Schema: schema(), Proxy: true}}, Alphabet: syms.Refs(same...), Depth: 3, Dedup: true, Starts: [][]any{{}}})
 	seqx.Explore(cfg, rep, p, specs)
 }
 
